@@ -18,7 +18,7 @@ FILES = {   # file -> checks that own it
  'src/mclmc.rs': ['C18', 'C06'], 'src/chain.rs': ['C03', 'C16', 'C06'],
  'src/math/util.rs': ['C17', 'C01'], 'src/math/cpu_math.rs': ['C17', 'C08', 'C18'],
  'src/storage/zarr/common.rs': ['C15'], 'src/storage/zarr/sync_impl.rs': ['C15'], 'src/storage/zarr/async_impl.rs': ['C15'], 'src/storage/hashmap.rs': ['C14'], 'src/storage/csv.rs': ['C14'],
- 'src/sampler.rs': ['C13', 'C12', 'C16'], 'src/external_adapt_strategy.rs': ['C06', 'C05'],
+ 'src/sampler.rs': ['C13', 'C12', 'C16', 'C18'], 'src/external_adapt_strategy.rs': ['C06', 'C05'],
 }
 OPS = [  # (regex, replacement) applied to one occurrence at a time
  (r' < ', ' <= '), (r' <= ', ' < '), (r' > ', ' >= '), (r' >= ', ' > '), (r' == ', ' != '), (r' != ', ' == '),
